@@ -44,9 +44,15 @@ pub fn local_addr() -> SocketAddr {
     "10.1.2.3:5000".parse().unwrap()
 }
 
+/// indices 0..NTID are the core ids every generator uses; larger indices (the many-transactions
+/// shape) get ids of their own: b7 3c <index, 16 bit> 05 .. 0c
 pub fn tid_bytes(i: usize) -> [u8; 12] {
     let mut t = [0u8; 12];
-    match i % NTID {
+    if i >= NTID {
+        t = [0xb7, 0x3c, (i >> 8) as u8, i as u8, 5, 6, 7, 8, 9, 10, 11, 12];
+        return t;
+    }
+    match i {
         0 => t = [0x11; 12],
         1 => t = [0; 12],
         2 => t = [0xff; 12],
@@ -63,6 +69,20 @@ pub fn tid_bytes(i: usize) -> [u8; 12] {
         }
     }
     t
+}
+
+/// inverse of `tid_bytes`
+pub fn tid_index(t: &[u8; 12]) -> Option<usize> {
+    if let Some(i) = (0..NTID).find(|i| &tid_bytes(*i) == t) {
+        return Some(i);
+    }
+    if t[0] == 0xb7 && t[1] == 0x3c && t[4..] == [5, 6, 7, 8, 9, 10, 11, 12] {
+        let i = ((t[2] as usize) << 8) | t[3] as usize;
+        if i >= NTID {
+            return Some(i);
+        }
+    }
+    None
 }
 
 pub fn creds(i: usize) -> RefCreds {
@@ -131,6 +151,8 @@ pub enum Op {
     Incoming { request: bool, tid: u8, from: u8 },
     /// `count` indications, one from each of the addresses first, first+1, ... (indices may exceed u8)
     IncomingBurst { first: u16, count: u16 },
+    /// `count` requests with the ids of indices first, first+1, ... (>= NTID), all at the current instant
+    SendBurst { first: u16, count: u16 },
     Cancel(u8),
     CancelRetrans(u8),
     /// configure_timeout(rto ms + rto_us µs, n, last ms + last_us µs)
@@ -204,6 +226,7 @@ impl Op {
             Op::Response { tid, from, error, seal, fp } => json!({"op": "response", "tid": tid, "from": from, "error": error, "seal": seal_json(seal), "fp": fp}),
             Op::Incoming { request, tid, from } => json!({"op": "incoming", "request": request, "tid": tid, "from": from}),
             Op::IncomingBurst { first, count } => json!({"op": "incoming_burst", "first": first, "count": count}),
+            Op::SendBurst { first, count } => json!({"op": "send_burst", "first": first, "count": count}),
             Op::Cancel(t) => json!({"op": "cancel", "tid": t}),
             Op::CancelRetrans(t) => json!({"op": "cancel_retransmissions", "tid": t}),
             Op::Configure { tid, rto, n, last, rto_us, last_us } => json!({"op": "configure", "tid": tid, "rto": rto, "n": n, "last": last, "rto_us": rto_us, "last_us": last_us}),
@@ -244,6 +267,7 @@ impl Op {
             "response" => Op::Response { tid: u("tid")? as u8, from: u("from")? as u8, error: v.get("error")?.as_bool()?, seal: seal_from(v.get("seal")?)?, fp: v.get("fp")?.as_bool()? },
             "incoming" => Op::Incoming { request: v.get("request")?.as_bool()?, tid: u("tid")? as u8, from: u("from")? as u8 },
             "incoming_burst" => Op::IncomingBurst { first: u("first")? as u16, count: u("count")? as u16 },
+            "send_burst" => Op::SendBurst { first: (u("first")? as u16).max(NTID as u16), count: u("count")? as u16 },
             "cancel" => Op::Cancel(u("tid")? as u8),
             "cancel_retransmissions" => Op::CancelRetrans(u("tid")? as u8),
             "configure" => Op::Configure { tid: u("tid")? as u8, rto: u("rto")?, n: u("n")? as u32, last: u("last")?, rto_us: u("rto_us").unwrap_or(0) as u16, last_us: u("last_us").unwrap_or(0) as u16 },
@@ -276,7 +300,7 @@ impl History {
 
 /// Build the message for a Send op through the crate's builder (the thing under test hands the
 /// agent a `MessageBuilder`).  Returns the builder's own serialisation and whether it is sealed.
-pub fn build_send<'a>(kind: MsgKind, tid: u8, seal: Sealing, payload: u16) -> (stun_types::message::MessageBuilder<'a>, Vec<u8>, bool) {
+pub fn build_send<'a>(kind: MsgKind, tid: usize, seal: Sealing, payload: u16) -> (stun_types::message::MessageBuilder<'a>, Vec<u8>, bool) {
     let class = match kind {
         MsgKind::Request => 0,
         MsgKind::Indication => 1,
@@ -284,7 +308,7 @@ pub fn build_send<'a>(kind: MsgKind, tid: u8, seal: Sealing, payload: u16) -> (s
         MsgKind::Error => 3,
     };
     let method = 1 + (payload % 5);
-    let mut b = Message::builder(MessageType::from_class_method(super::builder::class_from(class), method), imp::tid_from_bytes(&tid_bytes(tid as usize)));
+    let mut b = Message::builder(MessageType::from_class_method(super::builder::class_from(class), method), imp::tid_from_bytes(&tid_bytes(tid)));
     // payload: an unknown attribute whose content and length depend on `payload`
     let n = match payload % 7 {
         0 => 0,
@@ -326,7 +350,7 @@ pub fn build_send<'a>(kind: MsgKind, tid: u8, seal: Sealing, payload: u16) -> (s
 
 /// Response / incoming bytes made with the reference encoder (independent of the builder).
 pub fn build_response(tid: u8, error: bool, seal: RespSeal, fp: bool, salt: u16) -> Vec<u8> {
-    let t = tid_bytes(tid as usize);
+    let t = tid_bytes(tid as usize % NTID);
     let mut tlvs = vec![];
     if error {
         tlvs.push(Tlv::new(0x0009, vec![0, 0, 4, (salt % 100) as u8, b'n', b'o']));
@@ -364,7 +388,7 @@ pub fn build_response(tid: u8, error: bool, seal: RespSeal, fp: bool, salt: u16)
 }
 
 pub fn build_incoming(request: bool, tid: u8, salt: u16) -> Vec<u8> {
-    let t = tid_bytes(tid as usize);
+    let t = tid_bytes(tid as usize % NTID);
     encode(if request { 0 } else { 1 }, 1, &t, &[Tlv::new(0x8022, format!("peer{salt}").into_bytes())])
 }
 
@@ -519,6 +543,9 @@ struct Eng<'c> {
     rec: Option<Vec<String>>,
     /// address indices >= NCORE that were handed to the agent (observed from then on)
     touched: std::collections::BTreeSet<usize>,
+    /// transaction-id indices >= NTID in use (observed periodically and at the end)
+    touched_tids: std::collections::BTreeSet<usize>,
+    observe_count: u64,
     last_obs: String,
     pending_obs: Option<String>,
 }
@@ -624,7 +651,7 @@ impl<'c> Eng<'c> {
         }
         // unrelated agents: bump the global counter, occupy other (and the same) transaction ids
         let mut a = StunAgent::builder(self.transport, "10.9.9.9:1".parse().unwrap()).build();
-        let (b, _, _) = build_send(MsgKind::Request, (self.step % NTID) as u8, Sealing::None, self.step as u16);
+        let (b, _, _) = build_send(MsgKind::Request, self.step % NTID, Sealing::None, self.step as u16);
         let t = Instant::now();
         let _ = a.send(b, addr(self.step), t);
         let _ = a.poll(t + Duration::from_millis(700));
@@ -639,9 +666,14 @@ impl<'c> Eng<'c> {
 
     /// observation after every call: outstanding-ness, peer address, validated peers
     fn observe(&mut self) {
+        self.observe_count += 1;
+        // the ids of the many-transactions shape are observed every 32nd time (and at the end): a
+        // thousand lookups after each of ten thousand polls would dominate the run
+        let all_tids = self.touched_tids.len() <= 64 || self.observe_count % 32 == 0 || self.step >= self.h.ops.len();
+        let tid_watch: Vec<usize> = if all_tids { (0..NTID).chain(self.touched_tids.iter().copied()).collect() } else { (0..NTID).collect() };
         if self.rec.is_some() {
             let mut out = vec![];
-            for i in 0..NTID {
+            for i in (0..NTID).chain(self.touched_tids.iter().copied()) {
                 let tid = imp::tid_from_bytes(&tid_bytes(i));
                 if let Some(r) = self.agent.request_transaction(tid) {
                     out.push(json!([hex(&tid_bytes(i)), r.peer_address().to_string()]));
@@ -656,7 +688,7 @@ impl<'c> Eng<'c> {
             }
             self.rec(|| json!({"op": "observe", "outstanding": out, "validated": val}));
         }
-        for i in 0..NTID {
+        for i in tid_watch {
             let tid = imp::tid_from_bytes(&tid_bytes(i));
             let got = self.agent.request_transaction(tid).map(|r| r.peer_address());
             let want = self.model.txs.get(&i).map(|t| addr(t.to));
@@ -784,7 +816,7 @@ impl<'c> Eng<'c> {
             min_early = Some(min_early.map_or(e, |m: u64| m.min(e)));
             min_late = Some(min_late.map_or(l, |m: u64| m.min(l)));
         }
-        let find_tid = |t: &[u8; 12]| (0..NTID).find(|i| &tid_bytes(*i) == t);
+        let find_tid = |t: &[u8; 12]| tid_index(t);
         match r {
             R::Wait(w) => {
                 self.res.log.push(format!("poll@{} -> WaitUntil({})", ft(now as i128), ft(w)));
@@ -920,7 +952,7 @@ impl<'c> Eng<'c> {
 
     fn completion(&mut self, t: &[u8; 12], cancelled: bool, must: &[(usize, Action)], may: &[usize], now: u64) -> Option<bool> {
         let name = if cancelled { "TransactionCancelled" } else { "TransactionTimedOut" };
-        let idx = (0..NTID).find(|i| &tid_bytes(*i) == t);
+        let idx = tid_index(t);
         self.res.log.push(format!("poll@{} -> {name}({})", ft(now as i128), hex(t)));
         self.last_wait = None;
         let Some(i) = idx.filter(|i| self.model.txs.contains_key(i)) else {
@@ -975,7 +1007,7 @@ impl<'c> Eng<'c> {
         Some(true)
     }
 
-    fn do_send(&mut self, kind: MsgKind, tid: u8, dest: u8, seal: Sealing, payload: u16) {
+    fn do_send(&mut self, kind: MsgKind, tid: usize, dest: u8, seal: Sealing, payload: u16) {
         self.touch(dest as usize);
         let (b, bytes, sealed) = build_send(kind, tid, seal, payload);
         let now = self.now;
@@ -994,7 +1026,10 @@ impl<'c> Eng<'c> {
             return;
         };
         self.last_wait = None;
-        let i = tid as usize % NTID;
+        let i = tid;
+        if i >= NTID {
+            self.touched_tids.insert(i);
+        }
         let is_req = kind == MsgKind::Request;
         let outstanding = self.model.txs.contains_key(&i);
         if self.rec.is_some() {
@@ -1203,7 +1238,16 @@ impl<'c> Eng<'c> {
     fn step_op(&mut self, op: &Op) {
         self.flush_obs();
         match op {
-            Op::Send { kind, tid, dest, seal, payload } => self.do_send(*kind, *tid, *dest, *seal, *payload),
+            Op::Send { kind, tid, dest, seal, payload } => self.do_send(*kind, *tid as usize % NTID, *dest, *seal, *payload),
+            Op::SendBurst { first, count } => {
+                for j in 0..*count as usize {
+                    if self.failed {
+                        break;
+                    }
+                    self.do_send(MsgKind::Request, *first as usize + j, (j % NCORE) as u8, Sealing::None, (j % 5) as u16 * 7);
+                }
+                self.ctx.count_n("burst-transactions", *count as u64);
+            }
             Op::Poll(at) => {
                 let target = match (at, self.last_wait) {
                     (PollAt::AtWait, Some(w)) => w,
@@ -1431,6 +1475,8 @@ pub fn run_history(ctx: &mut Ctx, h: &History, cfg: &RunCfg) -> RunResult {
         step: 0,
         rec: None,
         touched: Default::default(),
+        touched_tids: Default::default(),
+        observe_count: 0,
         last_obs: String::new(),
         pending_obs: None,
     };
